@@ -97,6 +97,6 @@ pub fn run_case(f: &[String]) -> String {
             let bin = midi::generate(&mut song);
             format!("{}\t{}\t{}\t{}", hex(&bin), song.timebase, evs, enc_text(&song.get_logs_str()))
         }
-        k => format!("UNKNOWN-KIND:{}", k),
+        _ => crate::ext::run_case(f),
     }
 }
